@@ -30,6 +30,7 @@ class Ext:
 class Comp:
     axis: str
     vary: Optional[int] = None  # array axis along which the values change (-2 / -1), if a grid
+    freq: bool = False  # a spatial-frequency vector (fftfreq) rather than a pixel coordinate
 
 
 @dataclass(frozen=True)
@@ -174,7 +175,7 @@ class KAT:
                     if vary in (-2, -1) and n == 2 or (vary in (-2, -1)):
                         if vary in (-2, -1) and vary != want:
                             self.clash(e, f"`{unparse(e)}` lays {v.axis}-axis values along array axis {vary}")
-                        return Comp(v.axis, vary if vary in (-2, -1) else None)
+                        return Comp(v.axis, vary if vary in (-2, -1) else None, v.freq)
             return v
         return v if isinstance(v, (Ext, Num)) else None
 
@@ -212,6 +213,10 @@ class KAT:
         if op is ast.Mod and isinstance(l, Comp) and isinstance(r, Ext) and l.axis != r.axis:
             self.clash(e, f"`{unparse(e)[:70]}` wraps a {l.axis}-axis quantity modulo the {r.axis} extent")
             return l
+        if op is ast.Mult and isinstance(l, Comp) and isinstance(r, Comp) and l.axis != r.axis and (l.freq != r.freq):
+            f, c = (l, r) if l.freq else (r, l)
+            self.clash(e, f"`{unparse(e)[:70]}` multiplies the {f.axis}-axis frequencies by a {c.axis}-axis shift/coordinate")
+            return None
         if op is ast.Mult and ((isinstance(l, Comp) and r is None) or (isinstance(r, Comp) and l is None)):
             return None  # multiplied by an unknown factor (a direction cosine …): no longer an axis quantity
         for a, b in ((l, r), (r, l)):
@@ -242,7 +247,7 @@ class KAT:
                     return None
                 return a
         if isinstance(l, Comp) and isinstance(r, Comp) and l.axis == r.axis:
-            return Comp(l.axis, l.vary if l.vary == r.vary else None)
+            return Comp(l.axis, l.vary if l.vary == r.vary else None, l.freq and r.freq)
         if isinstance(l, Comp) and isinstance(r, Ext):
             return l
         if isinstance(l, Ext) and isinstance(r, Comp):
@@ -258,7 +263,7 @@ class KAT:
         if short in ("arange", "fftfreq", "rfftfreq") and args:
             a = self.ev(args[0] if len(args) == 1 or short != "arange" else (args[1] if len(args) >= 2 and isinstance(self.ev(args[0]), Num) else args[0]))
             if isinstance(a, Ext):
-                return Comp(a.axis)
+                return Comp(a.axis, None, short in ("fftfreq", "rfftfreq"))
             return None
         if short == "linspace" and len(args) >= 2:
             ends = [self.ev(args[0]), self.ev(args[1])]
@@ -286,7 +291,7 @@ class KAT:
             if isinstance(v, Seq) and len(v.items) == 2 and all(isinstance(i, (Ext, Comp)) for i in v.items) and short in ("tensor", "as_tensor", "array", "asarray"):
                 return Pair((v.items[0].axis, v.items[1].axis))
             if isinstance(v, Comp) and short in ("reshape", "view", "squeeze", "unsqueeze", "expand", "broadcast_to"):
-                return Comp(v.axis)
+                return Comp(v.axis, None, v.freq)
             return v
         if short == "mod" and len(args) == 2:
             v, w = self.ev(args[0]), self.ev(args[1])
@@ -318,7 +323,7 @@ class KAT:
                     want = -2 if v.axis == ROW else -1
                     if vary != want:
                         self.clash(e, f"meshgrid(indexing='{mode}') lays the {v.axis}-extent vector `{unparse(args[k])}` along array axis {vary}")
-                    out.append(Comp(v.axis, vary))
+                    out.append(Comp(v.axis, vary, v.freq))
                 else:
                     out.append(None)
             return Seq(tuple(out))
